@@ -51,6 +51,7 @@ type sink struct {
 	failWrite int // fail the Write with this 1-based index (0 = never)
 	failSync  int // fail the Sync following the Write with this index
 	lastWrite int
+	delay     time.Duration // every Write takes this long
 }
 
 func fileHash(path string) [32]byte {
@@ -59,6 +60,9 @@ func fileHash(path string) [32]byte {
 }
 
 func (s *sink) Write(p []byte) (int, error) {
+	if s.delay > 0 {
+		time.Sleep(s.delay)
+	}
 	s.mu.Lock()
 	defer s.mu.Unlock()
 	s.writes++
@@ -154,8 +158,12 @@ func TestC06(t *testing.T) {
 		tornWrites(t, r, dir)
 		refusalBursts(t, r, dir)
 		manyVersions(t, r, dir)
+		overlappingIdenticalGets(t, r, dir)
+		for i := 0; i < r.N(6, 40); i++ {
+			neighbourOfAFailedRecord(t, r, dir, i)
+		}
 	}
-	r.Require("calls_with_one_record", "calls_with_no_record", "denied_calls_recorded", "unchanged_conditional_gets", "write_failures_injected", "sync_failures_injected",
+	r.Require("overlapping_identical_gets", "records_beside_a_failed_one", "calls_with_one_record", "calls_with_no_record", "denied_calls_recorded", "unchanged_conditional_gets", "write_failures_injected", "sync_failures_injected",
 		"mutations_logged_before_effect", "concurrent_lines", "concurrent_durability_checks", "server_level_denials", "server_level_entitled_calls", "audit_file_reopens", "calls_after_a_torn_record", "refusals_in_bursts", "versions_accounted_for")
 	r.Rule("sequential: seeded histories of ~30 calls (all 9 operations, callers with random rule sets incl. none, names incl. empty and reserved); per call the records captured between invocation and return are compared with the expectation table; in a third of the histories the sink fails the Write or the Sync of one chosen record. Concurrent: 16 goroutines x mixed calls with unique (user, secret) pairs on a real audit file; every line must parse and the multiset of records must equal the expected one. Distinct = (operation, authorised?, records expected, failure injected)")
 }
@@ -911,4 +919,159 @@ func manyVersions(t *testing.T, r *evid.Run, dir string) {
 		}
 	}
 	r.Distinct("many versions of one secret")
+}
+
+// overlappingIdenticalGets: several processes of one host poll the same secret on the same schedule: their
+// requests are identical in every respect and overlap. Each reply that carries the value is a disclosure of
+// its own and has a record of its own.
+func overlappingIdenticalGets(t *testing.T, r *evid.Run, dir string) {
+	snk := &sink{path: filepath.Join(dir, "oig.db"), delay: 3 * time.Millisecond}
+	d, err := db.Open(snk.path, realdb.DummyKey("c06oig"), audit.New(snk))
+	if err != nil {
+		t.Fatal(err)
+	}
+	d.Put(realdb.Super(), "polled", []byte("v1"))
+	d.Put(realdb.Super(), "polled", []byte("v2"))
+	srv, err := httpdrv.New(d)
+	if err != nil {
+		t.Fatal(err)
+	}
+	const addr = "100.64.10.1:1"
+	who := httpdrv.Who{Login: "svc@verif", Node: "app-host", Rules: []refmodel.Rule{{Actions: []string{"get"}, Patterns: []string{"polled"}}}}
+	srv.SetWho(addr, who)
+	for round, n := 0, r.N(30, 300); round < n; round++ {
+		op := []ops.Op{{Kind: ops.Get, Name: "polled"}, {Kind: ops.GetVer, Name: "polled", Version: 2}, {Kind: ops.GetCond, Name: "polled", Version: 2}}[round%3]
+		W := 2 + round%5
+		mk := snk.mark()
+		var wg sync.WaitGroup
+		var gate atomic.Bool
+		var delivered atomic.Int32
+		for w := 0; w < W; w++ {
+			wg.Add(1)
+			go func() {
+				defer wg.Done()
+				for !gate.Load() {
+				}
+				if res, _, _ := srv.Do(addr, op); res.Class == refmodel.OK && res.HasVal {
+					delivered.Add(1)
+				}
+			}()
+		}
+		gate.Store(true)
+		wg.Wait()
+		r.Eval(1)
+		r.Count("overlapping_identical_gets", W)
+		nrec := 0
+		for _, rc := range snk.since(mk) {
+			var e audit.Entry
+			if json.Unmarshal(rc.bytes, &e) == nil && e.Authorized && e.Action == "get" && e.Secret == "polled" && namesCaller(e.Principal, who, addr) {
+				nrec++
+			}
+		}
+		if nrec < int(delivered.Load()) {
+			r.Violation("disclosure-not-recorded", -1, fmt.Sprintf("round %d: %d overlapping identical requests (%s by %s) each received the value, but only %d get record(s) were written during them: a reply that carries the value without a record of its own", round, delivered.Load(), op, who.Node, nrec), nil)
+			return
+		}
+		if delivered.Load() != int32(W) {
+			r.Violation("server-entitled-call-fails", -1, fmt.Sprintf("round %d: only %d of %d overlapping identical gets delivered the value", round, delivered.Load(), W), nil)
+			return
+		}
+	}
+	r.Distinct("overlapping identical gets through the front door")
+}
+
+// fileSink is the audit file as audit.NewFile opens it (append-only), with everything *os.File offers (a
+// sink that can be measured and cut back included), except that the Write of a record naming failFor stores
+// only half of its bytes and reports a full disk - after the harness let other requests go by.
+type fileSink struct {
+	*os.File
+	failFor string
+	entered chan struct{}
+	resume  chan struct{}
+	once    sync.Once
+}
+
+func (s *fileSink) Write(p []byte) (int, error) {
+	if s.failFor != "" && bytes.Contains(p, []byte(s.failFor)) {
+		hit := false
+		s.once.Do(func() { hit = true })
+		if hit {
+			close(s.entered)
+			<-s.resume
+			k := len(p) / 2
+			s.File.Write(p[:k])
+			return k, errors.New("injected: no space left on device")
+		}
+	}
+	return s.File.Write(p)
+}
+
+// neighbourOfAFailedRecord: one request's record cannot be written (the disk fills up half way through it)
+// while other requests, whose records are complete and synced, have been answered: whatever the writer does
+// about the fragment, the neighbours' records stay.
+func neighbourOfAFailedRecord(t *testing.T, r *evid.Run, dir string, idx int) {
+	r.Eval(1)
+	path := filepath.Join(dir, fmt.Sprintf("nfr%d.db", idx))
+	f, err := os.OpenFile(path+".audit", os.O_WRONLY|os.O_APPEND|os.O_CREATE, 0600)
+	if err != nil {
+		t.Error(err)
+		return
+	}
+	defer f.Close()
+	snk := &fileSink{File: f, failFor: "unlucky@verif", entered: make(chan struct{}), resume: make(chan struct{})}
+	d, err := db.Open(path, realdb.DummyKey("c06nfr"), audit.New(snk))
+	if err != nil {
+		t.Error(err)
+		return
+	}
+	su := realdb.Super()
+	d.Put(su, "one", []byte("v"))
+	d.Put(su, "two", []byte("w"))
+	all := []refmodel.Rule{{Actions: actions, Patterns: []string{"*"}}}
+	unlucky := realdb.Caller("unlucky@verif", all)
+	aop := []ops.Op{{Kind: ops.Get, Name: "one"}, {Kind: ops.Put, Name: "one", Value: []byte("n")}, {Kind: ops.Info, Name: "one"}, {Kind: ops.Delete, Name: "one"}}[idx%4]
+	ares := make(chan ops.Result, 1)
+	go func() { ares <- ops.ApplyReal(d, unlucky, aop) }()
+	<-snk.entered
+	// meanwhile: other callers are served, each with a record of its own
+	type served struct {
+		user string
+		op   ops.Op
+		auth bool
+	}
+	var neighbours []served
+	rng := r.Rand(uint64(66_000_000 + idx))
+	for k, n := 0, 1+rng.IntN(4); k < n; k++ {
+		user := fmt.Sprintf("neighbour-%d-%d@verif", idx, k)
+		op := []ops.Op{{Kind: ops.Get, Name: "two"}, {Kind: ops.Info, Name: "two"}, {Kind: ops.Put, Name: "two", Value: []byte(fmt.Sprint("w", k))}, {Kind: ops.GetVer, Name: "two", Version: 1}}[rng.IntN(4)]
+		c, auth := realdb.Caller(user, all), true
+		if rng.IntN(4) == 0 {
+			c, auth = realdb.Caller(user, nil), false
+		}
+		res := ops.ApplyReal(d, c, op)
+		if auth != (res.Class == refmodel.OK) {
+			r.Violation("neighbour-call-wrong", idx, fmt.Sprintf("case %d: %s by %s (entitled=%t) while another request's audit write is in progress: %s (%s)", idx, op, user, auth, res, res.Err), nil)
+		}
+		neighbours = append(neighbours, served{user, op, auth})
+	}
+	close(snk.resume)
+	if res := <-ares; res.Class == refmodel.OK {
+		r.Violation("effect-without-record", idx, fmt.Sprintf("case %d: %s succeeded although its audit record could not be written", idx, aop), nil)
+	}
+	data, _ := os.ReadFile(path + ".audit")
+	for _, nb := range neighbours {
+		r.Count("records_beside_a_failed_one", 1)
+		ok := false
+		for _, line := range bytes.Split(data, []byte("\n")) {
+			var e audit.Entry
+			if json.Unmarshal(line, &e) == nil && e.Principal.User == nb.user && string(e.Action) == nb.op.Kind.Action() && e.Secret == nb.op.Name && e.Authorized == nb.auth {
+				ok = true
+			}
+		}
+		if !ok {
+			r.Violation("record-lost", idx, fmt.Sprintf("case %d: %s by %s was answered (entitled=%t) and its record was written and synced; then another request's record (%s by unlucky@verif) failed half way through. Afterwards the audit file (%d bytes) holds no record of the answered request", idx, nb.op, nb.user, nb.auth, aop, len(data)), nil)
+			break
+		}
+	}
+	r.Distinct("neighbour of a failed record / " + string(aop.Kind))
 }
